@@ -11,9 +11,9 @@ for d in seeded/C*; do
   for c in $checks; do
     if ! git -C /repo diff --quiet; then echo "repo dirty, abort"; exit 9; fi
     git -C /repo apply $PWD/$d/patch.diff || { echo "| $id | $c | patch-does-not-apply | |" >> $out; continue; }
-    ./check $c --tier quick > /tmp/mm_$id_$c.log 2>&1; rc=$?
+    ./check $c --tier quick > /tmp/mm_${id}_${c}.log 2>&1; rc=$?
     git -C /repo checkout -- .
-    sigs=$(grep "sig:" /tmp/mm_$id_$c.log | head -3 | sed 's/  sig: //; s/|/\//g' | tr '\n' ';')
+    sigs=$(grep "sig:" /tmp/mm_${id}_${c}.log | head -3 | sed 's/  sig: //; s/|/\//g' | tr '\n' ';')
     echo "| $id | $c | $rc | $sigs |" >> $out
   done
 done
